@@ -1571,6 +1571,65 @@ fn subscribers_that_allow_topic_aliases_see_the_original_topics() {
     report(name, "C01,C20", "5 filter sets (wildcard, literal, overlapping) x Topic Alias Maximum 1/2/10 x QoS 0/1 x all 27 sequences of 3 publishes over 3 topics x batched / one by one", cases, fail);
 }
 
+/// C01 / C20: an MQTT 5 PUBLISHER that uses topic aliases — every message is delivered under the topic its alias stood for
+/// when the PUBLISH was sent, for QoS 2 as for QoS 0/1 (a QoS 2 publish is stored until its release)
+// @native props=C01,C20 tier=quick fn=Router::handle_device_payload(Publish QoS 2)+validate_and_set_topic_alias
+#[test]
+fn publisher_topic_aliases_mean_what_they_meant_when_the_publish_was_sent() {
+    let name = "rumqttd::Router::handle_device_payload#publisher_topic_alias_is_resolved_on_arrival";
+    let mut cases = 0u64;
+    let mut fail: Option<String> = None;
+    // a step: (QoS, topic or "" for alias-only, alias); QoS 2 publishes are released at the end, in order
+    let with_alias = |topic: &str, q: u8, pkid: u16, payload: &str, alias: u16| -> Packet {
+        match publish(topic, q, pkid, payload, false) {
+            Packet::Publish(x, _) => Packet::Publish(x, Some(crate::protocol::PublishProperties { payload_format_indicator: None, message_expiry_interval: None, topic_alias: Some(alias), response_topic: None, correlation_data: None, user_properties: vec![], subscription_identifiers: vec![], content_type: None })),
+            other => other,
+        }
+    };
+    let topics = ["ta", "tb"];
+    // every script of 3 publishes: each sets alias 1 to ta / to tb (topic given) or uses alias 1 (empty topic), at QoS 0 or 2
+    'outer: for code in 0..6usize.pow(3) {
+        let steps: Vec<(u8, Option<usize>)> = (0..3).map(|k| { let d = (code / 6usize.pow(k)) % 6; (if d >= 3 { 2u8 } else { 0u8 }, match d % 3 { 0 => Some(0), 1 => Some(1), _ => None }) }).collect();
+        if steps[0].1.is_none() {
+            continue; // an alias has to be established before it is used
+        }
+        cases += 1;
+        let desc = format!("publisher steps (QoS, Some(i) = topic t{{a,b}}[i] with alias 1 / None = alias 1 only) {:?}; QoS 2 publishes released afterwards in order", steps);
+        let mut r = new_router();
+        let s1 = connect(&mut r, "s", true).unwrap();
+        let p = connect(&mut r, "p", true).unwrap();
+        send(&mut r, &s1, vec![subscribe(1, &[("ta", 0), ("tb", 0)])]);
+        let _ = drain(&mut r, &s1);
+        let mut current: Option<usize> = None;
+        let mut want: Vec<(String, String)> = vec![];
+        let mut held: Vec<(u16, String, String)> = vec![];
+        for (k, (q, t)) in steps.iter().enumerate() {
+            if let Some(i) = t {
+                current = Some(*i);
+            }
+            let topic_now = topics[current.unwrap()].to_string();
+            let payload = format!("m{}", k);
+            let pkid = if *q == 2 { 80 + k as u16 } else { 0 };
+            send(&mut r, &p, vec![with_alias(t.map(|i| topics[i]).unwrap_or(""), *q, pkid, &payload, 1)]);
+            if *q == 2 { held.push((pkid, payload, topic_now)); } else { want.push((payload, topic_now)); }
+        }
+        for (pkid, payload, topic) in held {
+            send(&mut r, &p, vec![pubrel(pkid)]);
+            want.push((payload, topic));
+        }
+        if !r.connection_map.contains_key("p") {
+            fail = Some(format!("input=[{}] detail=[the publisher was disconnected although every alias it used had been established]", desc));
+            break 'outer;
+        }
+        let got: Vec<(String, String)> = receive_all(&mut r, &s1).into_iter().map(|g| (g.1, g.0)).collect();
+        if got != want {
+            fail = Some(format!("input=[{}] detail=[subscriber saw (payload, topic) {:?}, expected {:?}]", desc, got, want));
+            break 'outer;
+        }
+    }
+    report(name, "C01,C20", "all scripts of 3 publishes, each QoS 0 or 2 and either (re)defining alias 1 as one of two topics or using it, QoS 2 released at the end", cases, fail);
+}
+
 /// C01/C09: outgoing-buffer-full back-pressure (Unschedule -> Busy -> Ready) neither loses nor repeats messages
 // @native props=C01,C09 tier=quick fn=Router::{consume,forward_device_data}+Outgoing::push_forwards (BufferFull path)
 #[test]
